@@ -37,6 +37,25 @@ func RunEnvStubs(repo *Repo) map[string]exec.Stub {
 		ex.Emit("Remove", "fail", c.Args[0])
 		return ex.NewError(ex.C.StrC("remove: permission denied"), "perm")
 	}
+	// a mutating call the property does not allow: recorded so that the whitelist check sees it
+	otherMutation := func(kind string) exec.Stub {
+		return func(ex *exec.Exec, c *exec.CallInfo) exec.Value {
+			var arg exec.Value
+			if len(c.Args) > 0 {
+				arg = c.Args[0]
+			}
+			ex.Emit("OtherMutation", kind, arg)
+			if len(c.Args) > 0 {
+				if _, isStr := c.Args[0].(*smt.Term); isStr && c.Sig != nil && c.Sig.Results().Len() == 1 {
+					return exec.Iface{}
+				}
+			}
+			return exec.Iface{}
+		}
+	}
+	for _, fn := range []string{"os.RemoveAll", "os.Rename", "os.Mkdir", "os.Chmod", "os.Truncate", "os.Symlink", "os.Link", "os.Chdir"} {
+		st[fn] = otherMutation(fn)
+	}
 	st["errors.Is"] = func(ex *exec.Exec, c *exec.CallInfo) exec.Value {
 		a, b := c.Args[0].(exec.Iface), c.Args[1].(exec.Iface)
 		ae, ok1 := a.V.(*exec.ErrObj)
@@ -273,6 +292,11 @@ func checkRunTrace(ic *IC, ex *exec.Exec, repo *Repo, f *runFlags, failed bool, 
 		ex.Pass("C17: run returns an error iff some step failed")
 	}
 	// ---- C18: whitelist of mutating events with the right targets ----
+	for _, e := range ex.Events {
+		if e.Kind == "OtherMutation" {
+			ex.Fail("C18/C15: run() calls " + e.Note + ", a file-system mutation outside {os.Remove(out), os.MkdirAll(dir(out)), os.WriteFile(out)}")
+		}
+	}
 	for _, e := range removes {
 		ex.Oblige(c.Eq(e.Args[0].(*smt.Term), f.out), "C18: os.Remove targets exactly the -out path")
 		ex.Oblige(c.And(f.remove, hasOut), "C18/C15: os.Remove only with -rm and -out")
